@@ -26,7 +26,8 @@ func (x *exec) histC12() {
 		}
 		return l
 	}
-	for i, st := range s.Steps {
+	for _, xs := range scn.Expand(s.Steps) {
+		i, st := xs.I, xs.St
 		if x.stop || len(x.res.Viol) > 0 {
 			break
 		}
@@ -317,6 +318,40 @@ func (x *exec) relations(step, ei, d, c int) {
 			return
 		}
 	}
+	// count() and reverse() through long-lived compiled expressions as well: the
+	// relations hold "for every history", not only for freshly compiled ones
+	if x.longCount == nil {
+		x.longCount, x.longRev = map[int]*xpath.Expr{}, map[int]*xpath.Expr{}
+	}
+	if _, ok := x.longCount[ei]; !ok {
+		x.longCount[ei], _ = compile("count(" + text + ")")
+		x.longRev[ei], _ = compile("reverse(" + text + ")")
+	}
+	if ex := x.longCount[ei]; ex != nil {
+		e := x.begin(budgetFor(sel), 0)
+		got, it := evaluate(ex, x.nav(d, c))
+		if it != nil {
+			got = drain(it, 0)
+		}
+		x.end(e)
+		if want := valueOutcome(float64(len(sel.IDs))); !got.Aborted() && got.Key() != want.Key() {
+			x.viol("relation", "relation:count", fmt.Sprintf("count(%s) on doc %d ctx %d, through an expression compiled once and used %d times before, = %s; Select yields %d nodes", text, d, c, x.longUses[ei], clip(got.Key()), len(sel.IDs)), step)
+			return
+		}
+	}
+	if ex := x.longRev[ei]; ex != nil {
+		e := x.begin(budgetFor(sel), 0)
+		got := selectAll(ex, x.nav(d, c), 0)
+		x.end(e)
+		if want := (Outcome{Kind: "nodes", IDs: reversed(sel.IDs)}); !got.Aborted() && got.Key() != want.Key() {
+			x.viol("relation", "relation:reverse", fmt.Sprintf("reverse(%s) on doc %d ctx %d, through an expression compiled once and used %d times before, yields %s; Select yields %s", text, d, c, x.longUses[ei], clip(got.Key()), clip(sel.Key())), step)
+			return
+		}
+	}
+	if x.longUses == nil {
+		x.longUses = map[int]int{}
+	}
+	x.longUses[ei]++
 	// the same through a long-lived compiled expression (history clause)
 	if ex := x.shared[ei]; ex != nil {
 		e := x.begin(budgetFor(sel), 0)
